@@ -266,6 +266,29 @@ fn lowrank_feed(d: usize, draws: &[Vec<f64>], grads: &[Vec<f64>], settings: LowR
 }
 
 fn lowrank_exactness(d: usize, k: usize, cond: f64, p: &mut Partial) {
+    // the same covariance with the mean moved away from the origin by `shift` standard deviations
+    // per coordinate: recovery is exact "for all means", so the whitening error must not depend on
+    // the shift beyond rounding (eps * shift); a one-pass variance (eps * shift^2) does
+    let mut base: Option<f64> = None;
+    for shift in [0.0, 1e3, 2.5e6] {
+        let Some(w) = lowrank_exactness_shifted(d, k, cond, shift, p) else { return };
+        match base {
+            None => base = Some(w),
+            Some(b) => {
+                if !(w <= b + 1e-6) {
+                    p.violation(
+                        format!("C08/low-rank-whitening-depends-on-the-mean/lowrank-exact/d{d}/rank{k}/cond{cond:e}/shift{shift:e}"),
+                        format!("max |y + grad_y| / |y| = {w:e} with the mean {shift:e} standard deviations from the origin, {b:e} with the mean near the origin"),
+                        json!({"d": d, "rank": k, "cond": cond, "shift": shift}),
+                    );
+                    return;
+                }
+            }
+        }
+    }
+}
+
+fn lowrank_exactness_shifted(d: usize, k: usize, cond: f64, shift: f64, p: &mut Partial) -> Option<f64> {
     // covariance = D (I + U (L - I) U^T) D with k eigenvalues far from 1
     let dsc: Vec<f64> = (0..d).map(|i| cond.powf(0.25 * i as f64 / (d.max(2) - 1) as f64) * 0.6).collect();
     let u = crate::c02::orthonormal(d, k);
@@ -283,7 +306,7 @@ fn lowrank_exactness(d: usize, k: usize, cond: f64, p: &mut Partial) {
     let dm = Dense::diag(&dsc);
     let dinv = Dense::diag(&dsc.iter().map(|x| 1.0 / x).collect::<Vec<_>>());
     let prec = dinv.mul(&inner_inv).mul(&dinv);
-    let mu: Vec<f64> = (0..d).map(|i| 0.4 * i as f64 - 0.7).collect();
+    let mu: Vec<f64> = (0..d).map(|i| 0.4 * i as f64 - 0.7 + shift * dsc[i] * if i % 2 == 0 { 1.0 } else { -1.0 }).collect();
     // draws: x = mu + D sqrt(inner) t  — any point set works, the estimator only needs x and grad
     let n = 2 * d + 3;
     let pts: Vec<Vec<f64>> = (0..n)
@@ -302,18 +325,18 @@ fn lowrank_exactness(d: usize, k: usize, cond: f64, p: &mut Partial) {
         .collect();
     let _ = dm;
     p.evaluations += 1;
-    let key = format!("lowrank-exact/d{d}/rank{k}/cond{cond:e}");
-    let replay = json!({"d": d, "rank": k, "cond": cond});
+    let key = format!("lowrank-exact/d{d}/rank{k}/cond{cond:e}/shift{shift:e}");
+    let replay = json!({"d": d, "rank": k, "cond": cond, "shift": shift});
     // every eigen-direction of the rescaled covariance is kept (cut-off 1): the structure of any
     // covariance then "fits the rank"; with the default cut-off only rank 0 is exactly representable
     let settings = if k == 0 { LowRankSettings::default() } else { LowRankSettings { eigval_cutoff: 1.0, ..LowRankSettings::default() } };
     let Some((mut math, mut h, changed)) = lowrank_feed(d, &pts, &grads, settings) else {
         p.violation(format!("C08/estimator-panicked/{key}"), String::new(), replay);
-        return;
+        return None;
     };
     if !changed {
         p.violation(format!("C08/low-rank-adaptation-did-not-update/{key}"), String::new(), replay);
-        return;
+        return None;
     }
     // in the whitened space of the adapted transformation: gradient = -position (for the true density)
     let target = Target::DenseNormal { mu: mu.clone(), prec: prec.a.clone() };
@@ -349,10 +372,11 @@ fn lowrank_exactness(d: usize, k: usize, cond: f64, p: &mut Partial) {
             format!("max |y + grad_y| / |y| = {worst:e} on probe points"),
             replay,
         );
-        return;
+        return None;
     }
     p.count(&format!("lowrank_whitening_error_below_1e-{}", (-worst.log10()).floor().max(0.0) as i64), 1);
-    p.class(format!("lowrank-exact:d{d}:rank{k}"));
+    p.class(format!("lowrank-exact:d{d}:rank{k}:shift{shift:e}"));
+    Some(worst)
 }
 
 fn lowrank_degeneracy(p: &mut Partial, tier: Tier) {
